@@ -218,3 +218,15 @@ Qed.
 Example C13_example_gentrace_10 :
   replay rnd64 10 (map (gen_arrival rnd64 10) [0; 3; 3; 5]%Z) 7 = [[0]; []; []; []; [1; 2]; [3]; []].
 Proof. exact gentrace_roundtrip_witness_10. Qed.
+
+(* The other direction of the float window (the [ceil x - 1] disjunct of C13_float_replay_spec is inhabited):
+   the binary64 value nearest to 5/7 lies 1.6e-17 s ABOVE 5/7; at 7 ticks/s the code delivers it in tick 5 (whose
+   float time is that very value), exact arithmetic on the same rational says tick 6. The monitor accepts this
+   one-tick-early delivery only inside the rounding window of C13_float_window (found by the audit of the theorems) *)
+From Eudoxia Require Import Proofs.AuditExamplesB.
+Example C13_early_within_rounding :
+  (rnd64 (5 # 7) == AuditExamplesB.C13.a57 /\ 5 # 7 < AuditExamplesB.C13.a57 /\
+   ceilQ (AuditExamplesB.C13.a57 * inject_Z 7) = 6%Z)%Q /\
+  replay rnd64 7 [AuditExamplesB.C13.a57] 8 = at_tick 5 8 /\
+  replay exact 7 [AuditExamplesB.C13.a57] 8 = at_tick 6 8.
+Proof. destruct AuditExamplesB.C13.early_by_one as (A & B & C & D & E). repeat split; assumption. Qed.
